@@ -16,6 +16,8 @@ inductive Val where
   | int (i : Int)      -- a Python int (counters)
   | tok (n : Nat)      -- an opaque payload: a string that is not a number
   | nil                -- Python `None` stored as a value
+  | keys (ks : List Nat)   -- a Python set of keys (tag member sets), kept sorted by the models that use it
+  | nums (ns : List Nat)   -- a Python list of numbers (sliding-window log)
   deriving DecidableEq, Repr, Inhabited
 
 /-- Python's `int(value)` on a stored value: `None` raises TypeError, a token ValueError. -/
